@@ -9,7 +9,7 @@ from ..repo import roberta_generator as G, conditionalrewards as CR, stochastic_
 from ..universe import Product
 
 PROP = "C08"
-TRIPLES = [(0.1, 0.05, 0.25), (0.5, 0.3, 0.2)]     # robot, light, tile break probabilities (pairwise distinct)
+TRIPLES = [(0.1, 0.05, 0.25), (0.5, 0.3, 0.2), (0.125, 0.0371, 0.333)]     # robot, light, tile break probabilities (pairwise distinct; the third is not a whole percentage)
 VARIANTS = (("A", "game_a"), ("B", "game_b"), ("C", "game_c"))
 
 
@@ -153,7 +153,7 @@ def plan(ctx):
     return shards, spaces
 
 
-RULE = ("every board of the listed shapes over the tile alphabet {arrow <-,<->,->,v} x {firm, loose} x rewards, x 2 probability triples x 3 games, "
+RULE = ("every board of the listed shapes over the tile alphabet {arrow <-,<->,->,v} x {firm, loose} x rewards, x 3 probability triples (one with values that are not whole percentages) x 3 games, "
         "written by the real generator to a file and read back by the solver's reader, is compared with the rule model by partition "
         "refinement; non-trivial = one-column board, or a board with a down-only or a loose tile")
 ASSUME = ["the rule model is the harness author's reading of the property text: a robot failure re-lands the robot on its own tile "
